@@ -19,6 +19,8 @@ import z3
 INF = float("inf")
 MOD_MODE = os.environ.get("SYMX_MOD", "disj")   # "fork": one path per wrap count; "disj": solver-side case split
 MOD_WINDOW = 4
+ANGLE_AXIOMS = False     # arccos / arctan2 results constrained by their defining relations (cos t = u, sin t >= 0; h cos p = x, h sin p = y)
+TRIG_IDENTITY = True     # sin^2 + cos^2 = 1 for every argument term
 
 
 class Abort(BaseException):
@@ -123,6 +125,7 @@ class Ctx:
         self.witness = witness or {}
         self.check_defined = True
         self.notes: list[str] = []
+        self.known_covers: set = set()      # cover goals already met on an earlier path of this exploration
 
     # -- solver plumbing
     def _check(self, solver, *extra):
@@ -862,7 +865,10 @@ class SR:
                 return SR(s if which == "sin" else co)
         s, co = c.fresh("sin"), c.fresh("cos")
         names = [s.decl().name(), co.decl().name()]
-        c.add(s * s + co * co == 1, kind="def", defines=names)
+        if TRIG_IDENTITY:
+            c.add(s * s + co * co == 1, kind="def", defines=names)
+        else:
+            c.add(z3.And(s >= -1, s <= 1, co >= -1, co <= 1), kind="def", defines=names)
         for ax, s2, c2 in apps:
             c.add(z3.Implies(ax == x, z3.And(s2 == s, c2 == co)), kind="def",
                   defines=names + [s2.decl().name(), c2.decl().name()])
@@ -884,7 +890,14 @@ class SR:
     def arccos(self):
         if ctx().check_defined and not (self.is_conc and -1 <= self.v <= 1):
             prove_defined("arccos", And(self >= -1, self <= 1))
-        return self._abstract("arccos", lambda v: math.acos(max(-1.0, min(1.0, v))))
+        def axioms(c, x, y, yn, apps):
+            if ANGLE_AXIOMS:
+                t = SR(y)
+                ct, st = t.cos(), t.sin()
+                c.add(toz(ct) == x, kind="def", defines=[toz(ct).decl().name()])
+                c.add(toz(st) >= 0, kind="def", defines=[toz(st).decl().name()])
+
+        return self._abstract("arccos", lambda v: math.acos(max(-1.0, min(1.0, v))), axioms)
 
     def sign(self):
         if self.is_conc:
@@ -1044,6 +1057,13 @@ def arctan2(y, x):
         c.add(z3.Implies(z3.And(ay == yz, ax == xz), r2 == r), kind="def",
               defines=[r.decl().name(), r2.decl().name()])
     apps.append((yz, xz, r))
+    if ANGLE_AXIOMS:
+        p = SR(r)
+        cp, sp_ = p.cos(), p.sin()
+        h = c.fresh("hyp")
+        c.add(z3.And(h >= 0, h * h == xz * xz + yz * yz), kind="def", defines=[h.decl().name()])
+        c.add(h * toz(cp) == xz, kind="def", defines=[toz(cp).decl().name()])
+        c.add(h * toz(sp_) == yz, kind="def", defines=[toz(sp_).decl().name()])
     return SR(r)
 
 
@@ -1220,7 +1240,7 @@ def prove_le(name, a, b, kind="post"):
 def cover(name, cond=True):
     """reachability / interesting-region goal: must be satisfiable on some explored path"""
     c = ctx()
-    if c.covers.get(name):
+    if c.covers.get(name) or name in c.known_covers:
         return
     if isinstance(cond, (bool, _np.bool_)):
         c.covers[name] = c.covers.get(name, False) or bool(cond)
@@ -1234,7 +1254,11 @@ def cover(name, cond=True):
                 return
         except z3.Z3Exception:
             pass
-    r = c._check(c.solver, tob(cond))
+    s = z3.Solver()                      # short, non-incremental query: a cover goal is only a vacuity guard
+    s.set("timeout", min(c.qtimeout_ms, 3000))
+    s.add(*[e.expr for e in c.pc])
+    s.add(tob(cond))
+    r = c._check(s)
     c.covers[name] = c.covers.get(name, False) or (r == "sat")
 
 
@@ -1260,6 +1284,7 @@ def explore(fn, *, max_paths=20000, time_budget=600.0, qtimeout_ms=10000, check_
         prefix = work.pop()
         c = CTX = Ctx(prefix, qtimeout_ms=qtimeout_ms)
         c.check_defined = check_defined
+        c.known_covers = {k for k, v in st["covers"].items() if v}
         st["paths"] += 1
         try:
             fn()
